@@ -295,3 +295,32 @@ def _native_roundtrips(tier="quick", seed=0):
 
 
 JOBS = {"C20.native_roundtrips": _native_roundtrips}
+
+
+def _native_enum_properties(tier="quick", seed=0):
+    """BOUNDED: every enumeration-valued read/write property of the object model with every member that has an XML token (the enum leg of
+    the C09 set/get sweep): the member assigned is the member read back, whatever was set before and whatever else is set afterwards"""
+    import re
+
+    from contracts import c09
+
+    D = c09._domains()
+    enum_keys = {"%s.%s" % k for k, spec in D.items() if spec.get("enum")}
+    r = c09._native_setget_sweep(tier=tier, seed=seed)
+    keep = []
+    for o in r["obligations"]:
+        m = re.search(r"\[([A-Za-z_]+\.[a-z_]+)[:+]", o["name"])
+        if m and m.group(1) in enum_keys:
+            keep.append(dict(o, name=o["name"].replace("C09.", "C20."), base=o["base"].replace("C09.", "C20.")))
+    ok = {"name": "C20.native.enum_valued_properties_read_back_the_member_assigned", "base": "C20.native.enum_valued_properties_read_back_the_member_assigned", "kind": "bounded",
+          "status": "refuted" if any(o["status"] == "refuted" for o in keep) else "discharged", "backend": "native", "time": 0, "path": 0}
+    if ok["status"] == "refuted":
+        ok["replay"] = {"confirmed": True, "witness_class": "enum-property", "detail": "; ".join(o["replay"]["detail"] for o in keep if o["status"] == "refuted")[:600]}
+        ok["model"] = None
+    r = dict(r, contract="C20.native_enum_properties", prop="C20", obligations=keep + [ok])
+    r["bounded"] = dict(r["bounded"], name="C20.native_enum_properties", bound="%d enumeration-valued properties x every member with an XML token; " % len(enum_keys) + r["bounded"]["bound"])
+    r.pop("coverage", None)
+    return r
+
+
+JOBS["C20.native_enum_properties"] = _native_enum_properties
